@@ -11,7 +11,11 @@ EXPLANATION = (
     "both range tests; (D3) every use of the NonZero column is control-dependent on `min == 1`; (D4) the fall-backs are the wide "
     "types (unknown string format -> String, float selector wildcard -> f64, integer last resort -> i64) and recognised string "
     "formats map to the documented types; (D5) both default-range tests end in Err(InvalidValue); (D6) exclusive bounds become "
-    "inclusive integer bounds by exactly +1 / -1 and combine with max()/min()."
+    "inclusive integer bounds by exactly +1 / -1 and combine with max()/min(); (D7) each bounds-driven search over the table is "
+    "*evaluated* (a small interpreter over its HIR: comparisons, `abs`, `&&`/`||`, if/else, casts of the integer limits) on every "
+    "row of the table in iteration order, for boundary scenarios built from the rows' own limits (bound = a row's limit, bound "
+    "= 1, no bound): whenever it answers a type, that type's range (the row's limits; 1..=unsigned max for the NonZero column) "
+    "contains the schema's range, where a missing bound means at least the i64 limit on that side."
 )
 ASSUMPTIONS = ["schemars represents bounds as f64; precision loss above 2^53 is not decided"]
 
@@ -128,6 +132,7 @@ def run(facts, rep, tier):
                                         lo_names.add(b_["name"])
                         ok = any(re.search(r"\((%s) Eq 1\.?0?\)|(%s) Eq Some\(1" % ("|".join(map(re.escape, lo_names)), "|".join(map(re.escape, lo_names))), g[1]) for g in conds)
                         rep.ob("C10.D3", "nonzero-needs-min-1:%s" % cell, ok, "NonZero column used under `%s`" % (conds[-1][1] if conds else "no condition"), clo.get("sp"))
+    run_d7(facts, rep, c, h, rows, closures, MIN, MAX)
     # the by-format lookup
     finds = [(clo, par) for (clo, par, anc) in closures if par.get("name") == "find"]
     if rep.floor("C10.D2", "by-format lookup (find over the table)", len(finds), 1):
@@ -258,6 +263,10 @@ def run(facts, rep, tier):
                 elif p.startswith("Some(") and a["pat"].get("k") == "tstruct" and a["pat"]["pats"][0].get("k") == "bind":
                     ok = "TypeEntryDetails::String.into()" in body and "new_native" not in body
                     rep.ob("C10.D4", "unknown-string-format-is-String", ok, "unrecognised format -> String" if ok else "an unrecognised string format does not degrade to String: %s" % body[:100], a.get("sp"))
+            for fmt, ty in sorted(got.items()):
+                if fmt not in STR_FMT_SPEC:
+                    rep.ob("C10.D4", "string-format-documented:%s" % fmt, False,
+                           "string format `%s` is mapped to `%s`, but it is not one of the documented formats (%s): an unrecognised format must degrade to String — a narrower type rejects strings the schema admits" % (fmt, ty, ", ".join(sorted(STR_FMT_SPEC))), m.get("sp"))
             for fmt, ty in STR_FMT_SPEC.items():
                 rep.ob("C10.D4", "string-format:%s" % fmt, got.get(fmt) == ty, "%s -> %s" % (fmt, got.get(fmt)), m.get("sp"))
             rep.ob("C10.D4", "unknown-string-format-arm-exists", any(o["key"].endswith("unknown-string-format-is-String") for o in rep.obligations), "a catch-all arm for unknown formats exists")
@@ -290,3 +299,169 @@ def run(facts, rep, tier):
         both = arms.get("(Some($0),Some($1))")
         good = good and bool(both) and both == "Some($0.%s(($1 %s 1.0)))" % (comb, op)
         rep.ob("C10.D6", "exclusive-%s" % which, good, "%s: %s" % (which, arms) if good else "exclusive-%simum handling differs from ±1 / %s(): %s" % (which, comb, arms), found.get("sp"))
+
+
+# ---------------------------------------------------------------------------------------------- D7
+INT_LIMITS = {}
+for _w in (8, 16, 32, 64):
+    INT_LIMITS["i%d" % _w] = (float(-(2 ** (_w - 1))), float(2 ** (_w - 1) - 1))
+    INT_LIMITS["u%d" % _w] = (0.0, float(2 ** _w - 1))
+
+
+class Unknown(Exception):
+    pass
+
+
+def ev(e, env):
+    """evaluate a HIR expression of the search closures over concrete f64 values; raises Unknown on anything else"""
+    k = e.get("k")
+    if k == "block":
+        for st in e.get("stmts", []):
+            if st.get("k") == "let" and st["pat"].get("k") == "bind" and st.get("init") is not None:
+                env = dict(env)
+                env[st["pat"]["name"]] = ev(st["init"], env)
+            else:
+                raise Unknown("stmt " + str(st.get("k")))
+        return ev(e["tail"], env) if e.get("tail") is not None else None
+    if k == "if":
+        if e["cond"].get("k") == "letx":
+            raise Unknown("if let")
+        return ev(e["then"], env) if ev(e["cond"], env) else (ev(e["else"], env) if e.get("else") is not None else None)
+    if k == "bin":
+        op = e["op"]
+        if op == "And":
+            return bool(ev(e["l"], env)) and bool(ev(e["r"], env))
+        if op == "Or":
+            return bool(ev(e["l"], env)) or bool(ev(e["r"], env))
+        l, r = ev(e["l"], env), ev(e["r"], env)
+        if op == "Sub":
+            return l - r
+        if op == "Add":
+            return l + r
+        if op in ("Le", "Lt", "Ge", "Gt", "Eq", "Ne"):
+            return {"Le": l <= r, "Lt": l < r, "Ge": l >= r, "Gt": l > r, "Eq": l == r, "Ne": l != r}[op]
+        raise Unknown("op " + op)
+    if k == "un":
+        if e["op"] == "Deref":
+            return ev(e["e"], env)
+        if e["op"] == "Not":
+            return not ev(e["e"], env)
+        if e["op"] == "Neg":
+            return -ev(e["e"], env)
+        raise Unknown("un " + e["op"])
+    if k in ("ref", "cast"):
+        return ev(e["e"], env)
+    if k == "lit":
+        v = e["v"]
+        for t in ("float", "int", "str", "bool"):
+            if t in v:
+                return float(v[t]) if t in ("float", "int") else v[t]
+        raise Unknown("lit")
+    if k == "path":
+        p_ = e.get("path", "")
+        if e.get("res") == "local":
+            if p_ in env:
+                return env[p_]
+            raise Unknown("local " + p_)
+        if p_ == "f64::EPSILON":
+            return 2.220446049250313e-16
+        m_ = re.fullmatch(r"([iu](?:8|16|32|64))::(MIN|MAX)", p_)
+        if m_:
+            return INT_LIMITS[m_.group(1)][0 if m_.group(2) == "MIN" else 1]
+        if p_.endswith("::None"):
+            return None
+        raise Unknown("path " + p_)
+    if k == "mcall":
+        if e["name"] == "abs":
+            return abs(ev(e["recv"], env))
+        if e["name"] in ("to_string", "clone", "to_owned", "into"):
+            return ev(e["recv"], env)
+        if e["name"] in ("ge", "le", "gt", "lt", "eq"):
+            l, r = ev(e["recv"], env), ev(e["args"][0], env)
+            return {"ge": l >= r, "le": l <= r, "gt": l > r, "lt": l < r, "eq": l == r}[e["name"]]
+        raise Unknown("mcall " + e["name"])
+    if k == "call" and e.get("res") == "ctor" and (e.get("fn") or "").endswith("::Some"):
+        return ("some", ev(e["args"][0], env))
+    raise Unknown(str(k))
+
+
+def run_d7(facts, rep, c, h, rows, closures, MIN, MAX):
+    table = []
+    for r in rows:
+        fmt, ty, nz, lo, hi = r["es"]
+        t = ty["v"].get("str")
+        z = nz["v"].get("str")
+        if t not in INT_LIMITS:
+            return
+        table.append({"fmt": fmt["v"].get("str"), "ty": t, "nz": z, "lo": INT_LIMITS[t][0], "hi": INT_LIMITS[t][1]})
+    I64 = INT_LIMITS["i64"]
+    n_eval = 0
+    for idx, (clo, par, anc) in enumerate(closures):
+        if par.get("name") != "find_map":
+            continue
+        pats = clo["params"][0]["pats"]
+        names = [p_["name"] if p_.get("k") == "bind" else None for p_ in pats]
+        recv = src(par.get("recv"))
+        order = list(reversed(table)) if recv.endswith(".rev()") else list(table)
+        # which bounds exist in this arm, and under which names
+        arm = [a_ for a_ in anc if a_.get("k") is None and "pat" in a_ and a_["pat"].get("k") == "tuple" and len(a_["pat"]["pats"]) == 2]
+        if not arm:
+            continue
+        pmin, pmax = arm[-1]["pat"]["pats"]
+        def bound_name(pt):
+            bs = [b_["name"] for b_, _ in walk(pt) if b_.get("k") == "bind"]
+            return bs[0] if bs else None
+        has_min = "Some" in psrc(pmin)
+        has_max = "Some" in psrc(pmax)
+        nmin, nmax = bound_name(pmin), bound_name(pmax)
+        cell = "(%s,%s)" % ("Some" if has_min else "None", "Some" if has_max else "None")
+        lows = sorted({r_["lo"] for r_ in table} | {1.0, 0.0, -1.0, 2.0}) if has_min else [None]
+        highs = sorted({r_["hi"] for r_ in table} | {1.0, 100.0, 255.0, 256.0}) if has_max else [None]
+        bad = None
+        for lo in lows:
+            for hi in highs:
+                if lo is not None and hi is not None and lo > hi:
+                    continue
+                chosen = None
+                try:
+                    for r_ in order:
+                        env = {}
+                        for nm_, val in zip(names, (r_["fmt"], r_["ty"], r_["nz"], r_["lo"], r_["hi"])):
+                            if nm_:
+                                env[nm_] = val
+                        if nmin and lo is not None:
+                            env[nmin] = lo
+                        if nmax and hi is not None:
+                            env[nmax] = hi
+                        res = ev(clo["body"], env)
+                        n_eval += 1
+                        if isinstance(res, tuple) and res[0] == "some":
+                            chosen = res[1]
+                            break
+                except Unknown as e_:
+                    rep.ob("C10.D7", "search-evaluable:%s" % cell, False, "the search closure uses a construct the table interpreter does not model (%s): review the rule" % e_, clo.get("sp"))
+                    bad = "unknown"
+                    break
+                if chosen is None:
+                    continue
+                if chosen in INT_LIMITS:
+                    tlo, thi = INT_LIMITS[chosen]
+                else:
+                    mz = re.fullmatch(r"::std::num::NonZeroU(8|16|32|64)", chosen or "")
+                    if not mz:
+                        bad = "bound (%s, %s) selects `%s`, which is not a type of the table" % (lo, hi, chosen)
+                        break
+                    tlo, thi = 1.0, float(2 ** int(mz.group(1)) - 1)
+                need_lo = lo if lo is not None else I64[0]
+                need_hi = hi if hi is not None else I64[1]
+                if tlo > need_lo or thi < need_hi:
+                    bad = "for minimum %s / maximum %s the search answers `%s` (range %s..=%s): admitted values %s are not representable" % (
+                        "absent" if lo is None else "%g" % lo, "absent" if hi is None else "%g" % hi, chosen, "%g" % tlo, "%g" % thi,
+                        "below %g" % tlo if tlo > need_lo else "above %g" % thi)
+                    break
+            if bad:
+                break
+        if bad != "unknown":
+            rep.ob("C10.D7", "search-answers-a-wide-enough-type:%s" % cell, bad is None,
+                   "evaluated on %d rows x %d boundary scenarios: every answer contains the schema's range" % (len(order), len(lows) * len(highs)) if bad is None else bad, clo.get("sp"))
+    rep.floor("C10.D7", "row evaluations of the bounds-driven searches", n_eval, 200)
